@@ -81,6 +81,8 @@ def building(r, integer=False, aux=False, max_steps=12):
             comps.append(comp("USED", 9, "BIOMASA" if fuel != "BIOMASA" else "GASNATURAL", "COGEN", v=V("sparse")))
         if aux and r.random() < 0.3:
             comps.append(comp("AUX", 9, v=V("const")))       # auxiliaries of the cogenerator
+        if r.random() < 0.15:
+            comps.append(comp("USED", 9, "ELECTRICIDAD", "COGEN", v=V("const")))   # electricity taken by the cogenerator as an input
     if r.random() < 0.4:
         comps.append(comp("USED", 0, "ELECTRICIDAD", "NEPB", v=V()))
     if r.random() < 0.15:
